@@ -114,10 +114,19 @@ impl<T> Drop for Sender<T> {
 
 impl<T> Receiver<T> {
     pub fn try_recv(&mut self) -> Result<Option<T>, ChannelClosed> {
+        self.try_recv_if(|_| true)
+    }
+
+    /// Receives the next message if `accept` says so; a message that is not accepted stays at the
+    /// head of the channel and `Ok(None)` is returned, as for an empty channel.
+    pub fn try_recv_if(
+        &mut self,
+        accept: impl Fn(&T) -> bool,
+    ) -> Result<Option<T>, ChannelClosed> {
         #[cfg(fastrace_verif)]
         crate::verif::point(crate::verif::Point::BeforePop);
-        match self.rx.pop() {
-            Ok(val) => Ok(Some(val)),
+        match self.rx.peek() {
+            Ok(val) => Ok(accept(val).then(|| self.rx.pop().unwrap())),
             #[cfg(fastrace_verif)]
             Err(_) if {
                 crate::verif::point(crate::verif::Point::RecvEmptyBeforeAbandonCheck);
@@ -128,9 +137,9 @@ impl<T> Receiver<T> {
             }
             Err(_) if self.rx.is_abandoned() => {
                 // The producer may have pushed its last commands and gone away between the failed
-                // pop above and the abandoned check: look again before declaring the channel closed.
-                match self.rx.pop() {
-                    Ok(val) => Ok(Some(val)),
+                // peek above and the abandoned check: look again before declaring the channel closed.
+                match self.rx.peek() {
+                    Ok(val) => Ok(accept(val).then(|| self.rx.pop().unwrap())),
                     Err(_) => Err(ChannelClosed),
                 }
             }
